@@ -38,7 +38,7 @@ func (n *NodeInformation) Store(ctx context.Context, storage nodeenrollment.Stor
 
 	infoToStore := proto.Clone(n).(*NodeInformation)
 	if opts.WithStorageWrapper != nil {
-		keyId, err := opts.WithStorageWrapper.KeyId(ctx)
+		keyId, err := storageWrapperKeyId(ctx, opts.WithStorageWrapper)
 		if err != nil {
 			return fmt.Errorf("(%s) error reading wrapper key id: %w", op, err)
 		}
